@@ -237,15 +237,19 @@ class CFG:
         raise NotImplementedError
 
 
-def must_pass_through(cfg, start, is_target, is_marker, start_after=True):
+def must_pass_through(cfg, start, is_target, is_marker, start_after=True, track=None):
     """True iff every CFG path from element `start` (block,pos) to any element satisfying
-    is_target(node) or to the exit block (when is_target is None) contains an element satisfying
-    is_marker(node) strictly before the target. Returns (ok, witness_target_node)."""
+    is_target(node) (or to the exit block when is_target is None) contains an element satisfying
+    is_marker(node) strictly before the target. Returns (ok, witness_target_node).
+    track: optional declaration id of a scalar local whose constant value is followed along each path
+    (`v = <integer literal>` sets it, any other write forgets it); at a `switch (v)` with a known value
+    only the matching case successor is taken. This removes the infeasible paths of emulated returns
+    (`retAddr = k; goto call; ... switch (retAddr) { case k: goto ret_k; }`)."""
     sb, sp = start
     seen = set()
-    work = [(sb, sp + 1 if start_after else sp)]
+    work = [(sb, sp + 1 if start_after else sp, None)]
     while work:
-        b, p = work.pop()
+        b, p, val = work.pop()
         blk = cfg.blocks[b]
         els = blk['el']
         blocked = False
@@ -259,16 +263,41 @@ def must_pass_through(cfg, start, is_target, is_marker, start_after=True):
                 break
             if is_target is not None and is_target(n):
                 return False, n
+            if track is not None and n['k'] in ('BinaryOperator', 'CompoundAssignOperator') and n.get('op', '').endswith('=') and n.get('op') not in ('==', '!=', '<=', '>='):
+                l = strip(n['ch'][0])
+                if l is not None and l['k'] == 'DeclRefExpr' and l.get('d') == track:
+                    r = strip(n['ch'][1])
+                    val = r.get('v') if (n['op'] == '=' and r is not None and r['k'] == 'IntegerLiteral') else None
+            if track is not None and n['k'] == 'UnaryOperator' and n.get('op') in ('++', '--'):
+                l = strip(n['ch'][0])
+                if l is not None and l.get('d') == track:
+                    val = None
         if blocked:
             continue
         if is_target is None and b == cfg.exit:
             return False, None
-        for s in cfg.succ[b]:
+        succs = list(cfg.succ[b])
+        if track is not None and val is not None and blk.get('termk') == 'SwitchStmt':
+            t = cfg.nodes.get(blk.get('term'))
+            c = strip(t.get('c')) if t else None
+            if c is not None and c['k'] == 'DeclRefExpr' and c.get('d') == track:
+                chosen = []
+                default = []
+                for s_ in succs:
+                    lab = cfg.nodes.get(cfg.blocks[s_].get('label', -1))
+                    if lab is not None and lab['k'] == 'CaseStmt':
+                        if lab.get('v') == val:
+                            chosen.append(s_)
+                    else:
+                        default.append(s_)
+                succs = chosen or default
+        for s in succs:
             if s == cfg.exit and is_target is None:
                 return False, None
-            if s not in seen:
-                seen.add(s)
-                work.append((s, 0))
+            key = (s, val)
+            if key not in seen:
+                seen.add(key)
+                work.append((s, 0, val))
     return True, None
 
 
